@@ -90,13 +90,13 @@ func isNodeish(c *core.Ctx, t types.Type) bool {
 	if n == nil || n.Obj().Pkg() == nil || n.Obj().Pkg().Name() != "ast" {
 		return false
 	}
-	if n.Obj().Name() == "Location" {
+	if core.N(n.Obj()) == "Location" {
 		return false
 	}
 	nodeIface := c.Named("language/ast", "Node").Underlying().(*types.Interface)
 	if types.IsInterface(n) {
 		// interface: nodeish if it has GetKind (all node interfaces) or is Selection
-		return types.Implements(n, nodeIface) || n.Obj().Name() == "Selection"
+		return types.Implements(n, nodeIface) || core.N(n.Obj()) == "Selection"
 	}
 	return types.Implements(types.NewPointer(n), nodeIface)
 }
@@ -132,7 +132,7 @@ func c14Keys(c *core.Ctx, r *core.Reporter) {
 		fields := core.Fields(n)
 		idx := map[string]int{}
 		for i, f := range fields {
-			idx[f.Name()] = i
+			idx[core.N(f)] = i
 		}
 		listed := map[string]bool{}
 		last := -1
@@ -157,15 +157,15 @@ func c14Keys(c *core.Ctx, r *core.Reporter) {
 		r.Check(okOrder, k+"/order", pos[k], "children are listed in the struct's declaration order (= parse order)",
 			"the children of "+k+" are not visited in the order the struct declares (and the parser fills) them: enter/leave events are out of document order")
 		for _, f := range fields {
-			if f.Name() == "Kind" || f.Name() == "Loc" || listed[f.Name()] || !isNodeish(c, f.Type()) {
+			if core.N(f) == "Kind" || core.N(f) == "Loc" || listed[core.N(f)] || !isNodeish(c, f.Type()) {
 				continue
 			}
-			key := k + "." + f.Name()
+			key := k + "." + core.N(f)
 			if why, ok := keysExceptions[key]; ok {
-				r.Exists(k+"/unlisted/"+f.Name(), pos[k], "excepted: %s", why)
+				r.Exists(k+"/unlisted/"+core.N(f), pos[k], "excepted: %s", why)
 				continue
 			}
-			r.Bad(k+"/unlisted/"+f.Name(), pos[k], "ast.%s.%s holds a node but is not in the child table: that node is reachable from the root and is never entered or left", k, f.Name())
+			r.Bad(k+"/unlisted/"+core.N(f), pos[k], "ast.%s.%s holds a node but is not in the child table: that node is reachable from the root and is never entered or left", k, core.N(f))
 		}
 	}
 }
@@ -193,7 +193,7 @@ func pushPop(info *types.Info, list []ast.Stmt, push bool) (map[string]int, map[
 				if s == nil || core.TypeName(s.Recv()) != "TypeInfo" {
 					continue
 				}
-				fname := s.Obj().Name()
+				fname := core.N(s.Obj())
 				var rhs ast.Expr
 				if len(x.Rhs) == len(x.Lhs) {
 					rhs = x.Rhs[i]
@@ -521,7 +521,7 @@ func c14Wrap(c *core.Ctx, r *core.Reporter) {
 			}
 			for _, e := range []ast.Expr{be.X, be.Y} {
 				if tv, ok := info2.Types[e]; ok && tv.Value != nil && tv.Value.Kind() == constant.String {
-					if cobj, ok := core.ObjOf(info2, e).(*types.Const); ok && strings.HasPrefix(cobj.Name(), "Action") {
+					if cobj, ok := core.ObjOf(info2, e).(*types.Const); ok && strings.HasPrefix(core.N(cobj), "Action") {
 						out[constant.StringVal(tv.Value)] = true
 					}
 				}
@@ -612,8 +612,8 @@ func c14NoEdit(c *core.Ctx, r *core.Reporter) {
 		what := ""
 		switch x := n.(type) {
 		case *ast.CallExpr:
-			if f := core.CalleeObj(info, x); f != nil && writers[f.Name()] {
-				isWrite, what = true, f.Name()
+			if f := core.CalleeObj(info, x); f != nil && writers[core.N(f)] {
+				isWrite, what = true, core.N(f)
 			}
 		case *ast.AssignStmt:
 			for _, l := range x.Lhs {
@@ -698,7 +698,7 @@ func c14NoEdit(c *core.Ctx, r *core.Reporter) {
 		}
 		ast.Inspect(f.Body, func(n ast.Node) bool {
 			if call, ok := n.(*ast.CallExpr); ok {
-				if fo := core.CalleeObj(pp.TypesInfo, call); fo != nil && fo.Pkg() != nil && fo.Pkg().Path() == "reflect" && (fo.Name() == "Set" || strings.HasPrefix(fo.Name(), "Set")) {
+				if fo := core.CalleeObj(pp.TypesInfo, call); fo != nil && fo.Pkg() != nil && fo.Pkg().Path() == "reflect" && (core.N(fo) == "Set" || strings.HasPrefix(core.N(fo), "Set")) {
 					other++
 				}
 			}
